@@ -368,6 +368,7 @@ class NativeContract:
         self.c = c
         self.R = R or REG
         self.ns = native_namespace(self.R)
+        self.unevaluable = []
 
     def _compile(self, src):
         from .calls import clause_props
@@ -435,6 +436,11 @@ class NativeContract:
             loc.update({k: (_Raiser(v) if isinstance(v, Exception) else v) for k, v in vals.items()})
             try:
                 okv = eval(code, self.ns, loc)
+            except NameError:
+                # a specification function without a run-time counterpart (uninterpreted in the proof): the clause
+                # cannot be judged on live objects -- neither passed nor failed
+                self.unevaluable.append(e)
+                continue
             except Exception as ex:
                 failed.append("%s  (evaluation raised %r)" % (e, ex))
                 continue
@@ -531,6 +537,8 @@ def _run_witness(qual, wit, R, c, b, out):
         out.update(verdict="skipped", why="replay harness error: %r" % (e,), trace=traceback.format_exc()[-1500:])
         return out
     out["observed"] = {"result": repr(result)[:300], "raised": (type(raised).__name__ + ": " + str(raised)[:300]) if raised is not None else None}
+    if nc.unevaluable:
+        out["unevaluable_clauses"] = nc.unevaluable[:10]
     if failed:
         out.update(verdict="reproduced", failed_clauses=failed)
     else:
